@@ -87,8 +87,10 @@ pub struct TlsWorld {
     pub clock: Clock,
     pub conn: rustls::ClientConnection,
     pub st: St,
-    /// SSLRequest payload (framed with seq 1 on the wire)
+    /// SSLRequest payload
     pub sslreq: Vec<u8>,
+    /// sequence id of the SSLRequest packet (1 for ordinary clients)
+    pub ssl_seq: u8,
     /// plaintext the client sends once the TLS session is up (handshake response + commands)
     pub app_script: Vec<u8>,
     /// garbage to send instead of a ClientHello (malformed-input workloads)
@@ -130,6 +132,7 @@ impl TlsWorld {
             conn,
             st: St::WaitGreeting,
             sslreq,
+            ssl_seq: 1,
             app_script,
             instead_of_hello: None,
             raw_limit: None,
@@ -186,7 +189,7 @@ impl TlsWorld {
                 if self.greeting_raw.len() <= 4 {
                     return; // no greeting yet: server reads before greeting -> deadlock
                 }
-                let pkt = crate::wire::raw_packet(&self.sslreq.clone(), 1);
+                let pkt = crate::wire::raw_packet(&self.sslreq.clone(), self.ssl_seq);
                 self.queue(&pkt);
                 self.tls_from = self.client_raw.len();
                 if let Some(g) = self.instead_of_hello.clone() {
